@@ -1,4 +1,6 @@
 import astload
+import eigencw
+import hooks as nvhooks
 from core import Fn, Target, VC
 
 DRV = 'drivers/inst_wlearner.cpp'
@@ -173,6 +175,71 @@ def util_fns():
     return dict(scale=scale, sfw_scale=sfw_scale, merge=merge, merge_pred=merge_pred)
 
 
+UP = r'std::unique_ptr<nano::wlearner_t'
+TM_TYPES = [(r'^nano::rwlearner_t$|^' + UP + r'[^:]*>$', 'struct nv_rwl'),
+            (r'^nano::(table_|affine_|single_feature_)?wlearner_t$|' + UP + r'.*>::pointer$', 'struct nv_wlobj'),
+            (r'^nano::tensor4d_t$|tensor_t<nano::tensor_vector_storage_t, double, 4>', 'struct nv_t4m'),
+            (r'^nano::tensor4d_dims_t$|^nano::tensor_dims_t<4>$|^std::array<long, 4', 'struct nv_dims4'),
+            (r'^nano::hashes_t$|tensor_t<nano::tensor_vector_storage_t, unsigned long, 1>', 'struct nv_t1u'),
+            (r'^nano::indices_t$|tensor_t<nano::tensor_vector_storage_t, long, 1>', 'struct nv_t1i'),
+            (r'Eigen::Map<(const )?Eigen::Matrix<double, -1, 1', 'struct nv_vec')]
+TM_CALLS = [(r'^dynamic_cast\|nano::table_wlearner_t \*\|nano::wlearner_t \*', 'nv_dyncast_table({0})'),
+            (r'^dynamic_cast\|nano::affine_wlearner_t \*\|nano::wlearner_t \*', 'nv_dyncast_affine({0})'),
+            (r'^dynamic_cast\|nano::single_feature_wlearner_t \*\|nano::wlearner_t \*', 'nv_dyncast_sfw({0})'),
+            (r'^operator==\|bool \(const tensor_dims_t<4UL> &, const tensor_dims_t<4UL> &\)', 'nv_dims4_eq'),
+            (r'^operator==\|.*\|nano::tensor_t<nano::tensor_vector_storage_t, unsigned long, 1>', 'nv_t1u_eq'),
+            (r'^operator==\|.*\|nano::tensor_t<nano::tensor_vector_storage_t, long, 1>', 'nv_t1i_eq'),
+            (r'^operator\+=\|.*\|Eigen::MatrixBase<Eigen::Map<Eigen::Matrix<double, -1, 1, 0>, 0>\s*>', 'nv_vec_add({&0}, {1})')]
+TM_MEMBERS = [(r'^get\|' + UP, '{self}->ptr'), (r'^size\|nano::tensor_base_t<(unsigned )?long, 1', '{self}->n'),
+              (r'^dims\|nano::tensor_base_t<double, 4', '{self}->dims'),
+              (r'^vector\|nano::tensor_t<nano::tensor_vector_storage_t, double, 4>', 'nv_t4m_vector'),
+              (r'^hashes\|nano::table_wlearner_t', '(*{self}).m_hashes'), (r'^hash2tables\|nano::table_wlearner_t', '(*{self}).m_hash2tables'),
+              (r'^tables\|nano::single_feature_wlearner_t', '(*{self}).m_tables'),
+              (r'^feature\|nano::single_feature_wlearner_t', 'sfw_feature'),
+              (r'^do_try_merge\|nano::single_feature_wlearner_t', 'sfw_do_try_merge')]
+
+
+def try_merge_fns():
+    """the try_merge implementations: the base class default, the single-feature helper, tables and affine"""
+    k = dict(self_struct='struct nv_wlobj', types=TM_TYPES, calls=TM_CALLS, members=TM_MEMBERS)
+    return dict(base=Fn('base_try_merge', 'src/wlearner.cpp', 'try_merge', flt='wlearner_t::try_merge', **k),
+                helper=Fn('sfw_do_try_merge', 'src/wlearner/single.cpp', 'do_try_merge', flt='single_feature_wlearner_t::do_try_merge', **k),
+                table=Fn('table_try_merge', TABLE_CPP, 'try_merge', flt='table_wlearner_t::try_merge', **k),
+                affine=Fn('affine_try_merge', 'src/wlearner/affine.cpp', 'try_merge', flt='affine_wlearner_t::try_merge', **k),
+                feature=Fn('sfw_feature', 'src/wlearner/single.cpp', 'feature', flt='single_feature_wlearner_t::feature', **k))
+
+
+LIN_TYPES = [(T1I, 'struct nv_t1i'), (r'^nano::dataset_t$', 'struct nv_dataset'), (r'^nano::cluster_t$', 'struct nv_cluster'),
+             (r'^nano::tensor4d_map_t$|tensor_t<nano::tensor_marray_storage_t, double, 4>', 'struct nv_outm'),
+             (r'^Eigen::Map<\s*(const )?Eigen::Matrix<double, -1, 1', 'struct nv_rv'), (r'^nano::hinge_type$', 'uint8_t')]
+LIN_CALLS = [(r'^operator\(\)\|typename tbase::tconstref \(const nano::tensor_size_t\) const\|', '{0}.p[{1}]'),
+             (r'^ctor\|nano::tensor_t<nano::tensor_vector_storage_t, long, 1>\|', '{0}'),     # indices_t(indices_cmap_t): same view
+             (r'^ctor\|nano::cluster_t\|void \(nano::tensor_size_t, nano::tensor_size_t\)', 'nv_cluster_make({0}, {1})')]
+LIN_MEMBERS = [(r'^vector\|nano::tensor_t<nano::tensor_marray_storage_t, double, 4>', 'nv_out_vector'),
+               (r'^vector\|nano::single_feature_wlearner_t', 'nv_lin_vector'),
+               (r'^feature\|nano::single_feature_wlearner_t', 'sfw_feature'),
+               (r'^assign\|nano::cluster_t', 'nv_cluster_assign'), (r'^samples\|nano::dataset_t', 'nv_dataset_samples')]
+
+
+def linear_fns(cls):
+    """affine / hinge: do_predict, do_split and every lambda they hand to loop_scalar (2 + 1 for the hinge, 1 + 1 affine)"""
+    cpp = f'src/wlearner/{cls}.cpp'
+    mk = lambda me='struct nv_lin': dict(self_struct=me, types=LIN_TYPES, calls=LIN_CALLS, members=LIN_MEMBERS,
+                      stmt_hooks=[eigencw.hook('struct nv_rv', dest=[r'^Eigen::Map<Eigen::Matrix<double, -1, 1'], scalars=True)])
+    out = {}
+    for which, nlam in (('predict', 2 if cls == 'hinge' else 1), ('split', 1)):
+        owner = f'do_{which}'
+        flt = f'{cls}_wlearner_t::{owner}'
+        out[which] = [Fn(f'{cls}_{owner}', cpp, owner, flt=flt, hooks=[nvhooks.lambda_call_hook('loop_scalar', f'nv_ls_{cls}_{which}')], **mk())]
+        for k in range(nlam):
+            name = f'{cls}_{which}_lambda' + (str(k) if nlam > 1 else '')
+            # the affine lambdas do not capture `this`, the hinge ones do (m_threshold, m_hinge)
+            out[which].append(Fn(name, cpp, owner, flt=flt, lambda_index=k, captures=True, **mk('struct nv_lin' if cls == 'hinge' else None)))
+        out[which].append(Fn('sfw_feature', 'src/wlearner/single.cpp', 'feature', flt='single_feature_wlearner_t::feature',
+                             self_struct='struct nv_lin', types=LIN_TYPES))
+    return out
+
+
 def iter_loop_hook(code, elem):
     """iterator.loop(samples, feature, callback): the lambda is not translated; the overload that was resolved (by the
     std::function parameter type of the callee) must be the one for the expected kind of feature values"""
@@ -240,6 +307,19 @@ def build(tier):
     u = util_fns()
     targets.insert(0, Target('wl_merge', [u['merge'], u['merge_pred']], UH))    # the longest proof starts first
     targets.append(Target('sfw_scale', [u['sfw_scale'], u['scale']], UH, replace=['wl_scale'], loops=0))
+    LNH = 'specs/C10/linear.h'
+    for cls in ('affine', 'hinge'):
+        f = linear_fns(cls)
+        targets.append(Target(f'{cls}_do_predict', f['predict'], LNH))
+        targets.append(Target(f'{cls}_do_split', f['split'], LNH))
+    MH = 'specs/C10/trymerge.h'
+    t = try_merge_fns()
+    targets.append(Target('base_try_merge', [t['base']], MH))
+    targets.append(Target('sfw_do_try_merge', [t['helper']], MH))
+    t = try_merge_fns()
+    targets.append(Target('table_try_merge', [t['table'], t['helper'], t['feature']], MH))
+    t = try_merge_fns()
+    targets.append(Target('affine_try_merge', [t['affine'], t['helper'], t['feature']], MH))
     return {
         'targets': targets, 'vcs': [],
         'decided': [
